@@ -35,6 +35,9 @@ NATIVE_UNITS = {
     "tail_arity_witness": {"file": "src/interpreter/interpreter.rs", "source": "tail_arity.rs",
                            "modpath": "interpreter::interpreter", "test": "verif_native_tail_arity_witness",
                            "role": "witness", "for_fns": ["apply_procedure"]},
+    "tail_arity_panic": {"file": "src/interpreter/interpreter.rs", "source": "tail_arity.rs",
+                         "modpath": "interpreter::interpreter", "test": "verif_native_tail_arity_panic",
+                         "role": "witness", "for_fns": ["apply_procedure"]},
     "complete_witness": {"file": "src/repl.rs", "source": "repl_complete.rs", "modpath": "repl",
                          "test": "verif_native_complete_witness", "role": "witness",
                          "for_fns": ["check_bracket_closed", "witness_caller"]},
@@ -64,8 +67,8 @@ PROPS = {
         "assumptions": ["RefCell's dynamic borrow state is not modelled by Verus (a double borrow_mut would panic); Kani executes the real RefCell"],
     },
     "C07": {
-        "verus": ["pair_pop", "values_num", "interp_tail", "interp_eval", "repl_complete", "macro_transform", "lexer_pos", "base_cmp", "base_folds"],
-        "kani": ["values", "folds"], "native": ["panic_probe"],
+        "verus": ["pair_pop", "values_num", "interp_tail", "interp_eval", "repl_complete", "macro_transform", "lexer_pos", "base_cmp", "base_folds", "base_pairs"],
+        "kani": ["values", "folds"], "native": ["panic_probe", "tail_arity_panic"],
         "level": "proof",
         "explanation": "Panic-freedom (no overflow, no failing unwrap/expect, no reachable todo!/unreachable!/panic!, no out-of-bounds index) "
                        "is proved per function for the named set: it is part of what Verus checks when it verifies a function body.",
@@ -116,7 +119,7 @@ PROPS = {
         "assumptions": ["functional oracle for the opaque evaluator: one evaluation of the test and two are not distinguished"],
     },
     "C08": {
-        "verus": ["interp_tail", "interp_eval_kind", "values_num", "valref_mut", "base_cmp"], "kani": ["values"], "native": ["tail_arity_witness", "eval_kind_witness"],
+        "verus": ["interp_tail", "interp_eval_kind", "values_num", "valref_mut", "base_cmp", "base_pairs"], "kani": ["values"], "native": ["tail_arity_witness", "eval_kind_witness"],
         "level": "proof",
         "explanation": "The argument-count test is proved to hold before EVERY hand-over to apply_scheme_procedure / a builtin body in the "
                        "trampoline loop (first call and every tail call), and an unacceptable count is proved to yield the ArgumentMissMatch "
@@ -137,7 +140,7 @@ PROPS = {
                         "rule X4: check_bracket_closed is instantiated at str::Chars, the type of its only call site (checked each run)"],
     },
     "C09": {
-        "verus": ["values_num", "base_folds"], "kani": ["values", "folds"], "native": [],
+        "verus": ["values_num", "base_folds", "base_pairs"], "kani": ["values", "folds"], "native": [],
         "level": "proof",
         "explanation": "Every arithmetic operation of Number is proved against rational-arithmetic postconditions for ALL i32 "
                        "operands (Verus, mathematical integers) and for an abstract inexact type R (contagion by congruence); "
